@@ -667,6 +667,19 @@ def _workbook_readback(tier="quick", seed=0):
         for j in range(npts):
             s.add_data_point(j, j + 1, j + 2)
     cases.append(("bubble ragged", XL_CHART_TYPE.BUBBLE, bb))
+    # missing values: the referenced range still spans every point of the series, the cache just has no c:pt for the blank cell
+    xy = XyChartData()
+    for i, npts in enumerate((4, 2, 3)):
+        s = xy.add_series("XYn%d" % i)
+        for j in range(npts):
+            s.add_data_point(None if (i, j) == (2, 0) else j + i, None if j == 1 else j * 2.5)
+    cases.append(("xy with missing values", XL_CHART_TYPE.XY_SCATTER_LINES, xy))
+    bb = BubbleChartData()
+    for i, npts in enumerate((3, 2)):
+        s = bb.add_series("Bn%d" % i)
+        for j in range(npts):
+            s.add_data_point(j, None if (i, j) == (0, 1) else j + 1, None if j == 0 else j + 2)
+    cases.append(("bubble with missing values", XL_CHART_TYPE.BUBBLE_THREE_D_EFFECT, bb))
     for label, ctype, cd in cases:
         xml = ChartXmlWriter(ctype, cd).xml
         root = etree.fromstring(xml.encode() if isinstance(xml, str) else xml)
